@@ -140,8 +140,8 @@ def gen(args):
             if len(chosen) >= args.per_prop:
                 break
         for j, c in enumerate(chosen):
-            plan.append(dict(id=f"{P}_m{j:02d}", prop=P, file=c[0], line=c[1], col=c[2], old=c[3], new=c[4], op=c[5], pool=len(pool)))
-    with open(os.path.join(OUT, "plan.jsonl"), "w") as fh:
+            plan.append(dict(id=(f"{P}_m{j:02d}" if args.seed == 1 else f"{P}_s{args.seed}m{j:02d}"), prop=P, file=c[0], line=c[1], col=c[2], old=c[3], new=c[4], op=c[5], pool=len(pool)))
+    with open(os.path.join(OUT, "plan.jsonl" if args.seed == 1 else f"plan_s{args.seed}.jsonl"), "w") as fh:
         for p in plan:
             fh.write(json.dumps(p) + "\n")
     print(f"{len(plan)} mutants planned ->", os.path.join(OUT, "plan.jsonl"))
@@ -210,7 +210,7 @@ def run_one(wt, m, log):
 
 
 def run(args):
-    plan = [json.loads(l) for l in open(os.path.join(OUT, "plan.jsonl"))]
+    plan = [json.loads(l) for l in open(os.path.join(OUT, args.plan))]
     if args.props:
         keep = set(args.props.split(","))
         plan = [p for p in plan if p["prop"] in keep]
@@ -285,6 +285,7 @@ if __name__ == "__main__":
     r = sub.add_parser("run")
     r.add_argument("--workers", type=int, default=3)
     r.add_argument("--props", default="")
+    r.add_argument("--plan", default="plan.jsonl")
     sub.add_parser("report")
     a = ap.parse_args()
     dict(gen=gen, run=run, report=report)[a.cmd](a)
